@@ -448,8 +448,55 @@ def descrlink(repo, res, ty, rule="DESCRLINK"):
         res.check(ok, rule, f"{rule}:pwsh::write_literals", why + ("" if ok else " -- id and description must be fields .0 and .2 of the same all_literals row"), fn.loc())
 
 
+REORDER_OR_DROP = {"unique", "unique_by", "dedup", "dedup_by", "dedup_by_key", "filter", "filter_map", "sorted", "sorted_by", "sorted_by_key", "sort", "sort_by", "sort_by_key", "sort_unstable", "rev", "skip", "skip_while",
+                   "take", "take_while", "step_by", "retain", "chain", "flat_map", "flatten", "zip", "cycle", "rotate_left", "rotate_right", "reverse", "swap"}
+
+
+def litlist(repo, res, ty, rule="LITLIST"):
+    """The `literals` array of every shell is positional: table cells refer to a literal by its id = its position (+ the array
+    base) in get_all_literals().  The list an emitter prints must therefore be that list element for element: on the way from
+    `all_literals` to the hole that carries the literal text through the encoder, no adaptor may drop, merge or reorder elements."""
+    from vlib import taint as T, templates as TM
+
+    for mod in RE.EMITTERS:
+        fn = repo.fn(f"{mod}::write_literals")
+        if fn is None:
+            res.undecided(rule, f"{rule}:{mod}::write_literals", "function not found")
+            continue
+        envs = A.collect_envs(fn)
+        anyt = T.Taint(repo, ty, set())
+        found = False
+        for s in TM.fmt_sites(fn, envs):
+            if s.macro not in ("write", "writeln"):
+                continue
+            for idx, nm, e in s.holes:
+                env = envs.get(id(e)) or s.env
+                seen = []
+
+                def probe(f, n):
+                    if n["k"] == "MethodCall":
+                        seen.append(n["method"])
+
+                pr = T.Taint(repo, ty, set(), scalars_clean=False, probe=probe)
+                raw = pr.raw(fn, e, env)
+                if not raw or "join" not in seen:
+                    continue
+                # the positional list: the first text-carrying joined hole of write_literals
+                if found:
+                    continue
+                found = True
+                bad = sorted(set(seen) & REORDER_OR_DROP)
+                res.check(not bad, rule, f"{rule}:{mod}::write_literals", f"literal list built through {sorted(set(seen))}" + ("" if not bad else f": {bad} drops, merges or reorders elements, so position i no longer holds the literal the tables call i"), f"{fn.file}:{s.node['l']}")
+        if not found:
+            res.undecided(rule, f"{rule}:{mod}::write_literals", "no joined text hole found (cannot identify the literal list)")
+
+
 def run(repo, res, tier):
     ty = typer(repo)
+    litlist(repo, res, ty)
+    from vlib import rules_fieldcover as FC
+    # the one command-id set holds the command of EVERY symbol that has one, top-level and within-word (ids are looked up in it later)
+    FC.fieldcover(repo, res, "dfa::DFA::get_commands", "Inp", "cmd", "call:insert", min_matches=2)
     descrlink(repo, res, ty)
     tot_s = tot_i = 0
     for mod in RE.EMITTERS:
